@@ -36,9 +36,9 @@ def _lines(ctx, name):
     return l
 
 
-def analyse(ctx, n):
+def analyse(ctx, n, only=None):
     res = {"ok": False, "detail": None, "s2": [], "opens": 0, "nontrivial": 0, "stats": "", "samples": []}
-    rc, out = ctx.harness("c11", [n] + consts(ctx))
+    rc, out = ctx.harness("c11", [n] + consts(ctx) + ([only] if only is not None else []))
     if rc != 0:
         res["detail"] = "harness failed rc=%s: %s" % (rc, (out or "")[-1500:])
         return res
@@ -92,10 +92,21 @@ def analyse(ctx, n):
     return res
 
 
+def _replay_target(ctx):
+    if not getattr(ctx, "replay", None):
+        return None
+    import json
+    o = json.load(open(ctx.replay))
+    m = re.search(r"bin c11 (\d+) .* (\d+)$", o.get("reproduce", ""))
+    ctx.seed = int(o.get("seed", ctx.seed))
+    return (int(m.group(1)), int(m.group(2))) if m else None
+
+
 def run(ctx):
     s1 = ctx.proof_obligations()
     n = 150 if ctx.quick else 3000
-    r = analyse(ctx, n)
+    rp = _replay_target(ctx)
+    r = analyse(ctx, rp[0], only=rp[1]) if rp else analyse(ctx, n)
     s2_ok, detail, searched = True, None, None
     if not r["ok"]:
         s2_ok, detail = False, r["detail"]
